@@ -23,7 +23,14 @@ import (
 	sdkmath "cosmossdk.io/math"
 	authtypes "github.com/cosmos/cosmos-sdk/x/auth/types"
 	consensustypes "github.com/cosmos/cosmos-sdk/x/consensus/types"
+	"cosmossdk.io/collections"
+	"github.com/btcsuite/btcd/chaincfg/chainhash"
+	bitcoinkeeper "github.com/goatnetwork/goat/x/bitcoin/keeper"
 	bitcoinmodule "github.com/goatnetwork/goat/x/bitcoin/module"
+	bitcointypes "github.com/goatnetwork/goat/x/bitcoin/types"
+	goatkeeper "github.com/goatnetwork/goat/x/goat/keeper"
+	lockingkeeper "github.com/goatnetwork/goat/x/locking/keeper"
+	relayerkeeper "github.com/goatnetwork/goat/x/relayer/keeper"
 	goatmodule "github.com/goatnetwork/goat/x/goat/module"
 	goatmod "github.com/goatnetwork/goat/x/goat/types"
 	lockingmodule "github.com/goatnetwork/goat/x/locking/module"
@@ -1710,6 +1717,10 @@ func (s *appStream) exportImport(r *tr.Rng) (op *tr.Op) {
 			return fail("state-differs:" + []string{"rel", "btc", "lock", "goat"}[i] + ":" + diffTokens(canonDump(b.res), canonDump(after[i])))
 		}
 	}
+	// every query of the four modules returns the same answer on both chains (arguments taken from the original state)
+	if q1, q2 := queryDigest(sim), queryDigest2(sim, sim2); q1 != q2 {
+		return fail("query-answers-differ:" + diffTokens(q1, q2))
+	}
 	// a second export is identical to the first (module by module; the imported chain has not
 	// committed a block yet, so the application-level export cannot be used on it)
 	g1, g2 := moduleExports(sim), moduleExports(sim2)
@@ -1738,6 +1749,81 @@ func (s *appStream) exportImport(r *tr.Rng) (op *tr.Op) {
 	return tr.NewOp("export/same="+same, "a.export", "height", sim.Height, "same", same, "detail", detail)
 }
 
+
+// queryDigest: the answers of every gRPC query method of the four modules, for arguments drawn from the state of `from`
+// (every validator, voter record, withdrawal id, credited outpoint, a few deposit addresses), asked on `on`.
+func queryDigest(sim *appsim.Sim) string { return queryDigest2(sim, sim) }
+
+func queryDigest2(from, on *appsim.Sim) string {
+	fctx, ctx := from.ReadCtx(), on.ReadCtx()
+	var out []string
+	add := func(name string, m interface{ String() string }, err error) {
+		if err != nil {
+			out = append(out, name+":err:"+strings.ReplaceAll(err.Error(), " ", "_"))
+		} else {
+			out = append(out, name+":"+strings.ReplaceAll(m.String(), " ", "_"))
+		}
+	}
+	bq := bitcoinkeeper.NewQueryServerImpl(on.App.BitcoinKeeper)
+	{
+		r, err := bq.Params(ctx, &bitcointypes.QueryParamsRequest{})
+		add("btc.params", r, err)
+		r2, err := bq.Pubkey(ctx, &bitcointypes.QueryPubkeyRequest{})
+		add("btc.pubkey", r2, err)
+		r3, err := bq.BlockTip(ctx, &bitcointypes.QueryBlockTipRequest{})
+		add("btc.tip", r3, err)
+		for v := uint32(0); v < 3; v++ {
+			r4, err := bq.DepositAddress(ctx, &bitcointypes.QueryDepositAddress{Version: v, EvmAddress: "0x00112233445566778899aabbccddeeff00112233"})
+			add(fmt.Sprintf("btc.depositaddr%d", v), r4, err)
+		}
+		_ = from.App.BitcoinKeeper.Withdrawals.Walk(fctx, nil, func(id uint64, _ bitcointypes.Withdrawal) (bool, error) {
+			r, err := bq.Withdrawal(ctx, &bitcointypes.QueryWithdrawalRequest{Id: id})
+			add(fmt.Sprintf("btc.withdrawal%d", id), r, err)
+			return false, nil
+		})
+		n := 0
+		_ = from.App.BitcoinKeeper.Deposited.Walk(fctx, nil, func(k collections.Pair[[]byte, uint32], _ uint64) (bool, error) {
+			var h chainhash.Hash
+			copy(h[:], k.K1())
+			for _, vout := range []uint32{k.K2(), k.K2() + 1} {
+				r, err := bq.HasDeposited(ctx, &bitcointypes.QueryHasDeposited{Txid: h.String(), Txout: vout})
+				add(fmt.Sprintf("btc.hasdeposited:%s:%d", h.String()[:12], vout), r, err)
+			}
+			n++
+			return n > 40, nil
+		})
+	}
+	rq := relayerkeeper.NewQueryServerImpl(on.App.RelayerKeeper)
+	{
+		r, err := rq.Params(ctx, &relayertypes.QueryParamsRequest{})
+		add("rel.params", r, err)
+		r2, err := rq.Relayer(ctx, &relayertypes.QueryRelayerRequest{})
+		add("rel.relayer", r2, err)
+		r3, err := rq.Pubkeys(ctx, &relayertypes.QueryPubkeysRequest{})
+		add("rel.pubkeys", r3, err)
+		_ = from.App.RelayerKeeper.Voters.Walk(fctx, nil, func(addr string, _ relayertypes.Voter) (bool, error) {
+			r, err := rq.Voter(ctx, &relayertypes.QueryVoterRequest{Address: addr})
+			add("rel.voter:"+addr, r, err)
+			return false, nil
+		})
+	}
+	lq := lockingkeeper.NewQueryServerImpl(on.App.LockingKeeper)
+	{
+		r, err := lq.Params(ctx, &lockingtypes.QueryParamsRequest{})
+		add("lock.params", r, err)
+		_ = from.App.LockingKeeper.Validators.Walk(fctx, nil, func(a sdk.ConsAddress, _ lockingtypes.Validator) (bool, error) {
+			r, err := lq.Validator(ctx, &lockingtypes.QueryValidatorRequest{Address: fmt.Sprintf("0x%x", []byte(a))})
+			add(fmt.Sprintf("lock.validator:%x", []byte(a)), r, err)
+			return false, nil
+		})
+	}
+	gq := goatkeeper.NewQueryServerImpl(on.App.GoatKeeper)
+	{
+		r, err := gq.EthBlockTip(ctx, &goatmod.QueryEthBlockTipRequest{})
+		add("goat.tip", r, err)
+	}
+	return strings.Join(out, " ")
+}
 
 func moduleExports(sim *appsim.Sim) []string {
 	ctx := sim.ReadCtx()
